@@ -7,6 +7,7 @@ import json
 from .. import behave as BH
 from .. import gen as G
 from .. import shapes as S
+from .. import twin as TW
 from ..common import Check, digest, log, rng_for
 
 PROP = "C02"
@@ -152,4 +153,9 @@ def main(tier, seed, scale=1.0):
             log("C02: binary %s exited with %s: %s" % (b, rc, err[-500:]))
         for c in cases:
             judge(chk, c, obs, dropped)
+    # differential family: parameter-free requests over std field types against std's derives
+    tw = TW.cases(seed, PROP, max(40, n // 4), "eq")
+    obs, dropped, crashed, _, _ = BH.execute("c02w", tw)
+    for c in tw:
+        TW.judge(chk, c, obs, dropped, "==")
     return chk.finish()
